@@ -22,7 +22,7 @@ EXPLANATION = (
     "argument binding over all signature shapes (inspect.signature semantics), from_format/to_format conversions."
 )
 LEVEL_RULE = "one obligation per validate call site / obj_getter branch / wrapper / forwarding call in decorators.py"
-FLOORS = {"R1": 7, "R2": 3, "R3": 4, "R4": 2, "R5": 5, "R6": 2, "R7": 2, "R8": 1}
+FLOORS = {"R1": 7, "R2": 3, "R3": 4, "R4": 2, "R5": 5, "R6": 2, "R7": 2, "R8": 1, "R9": 1, "R10": 2}
 
 DEC = "pandera/decorators.py"
 OPTS = ["head", "tail", "sample", "random_state", "lazy", "inplace"]
@@ -102,7 +102,123 @@ def _validate_sites(f):
     return out
 
 
+R9_SELFTEST = """
+def put_back_bad(out, getter, validated):
+    if isinstance(out, tuple):
+        out = out[:getter] + (validated,) + out[getter + 1:]
+    return out
+
+def put_back_guarded(out, getter, validated):
+    if getter < 0:
+        getter = getter + len(out)
+    return out[:getter] + (validated,) + out[getter + 1:]
+"""
+
+
+def _slice_arith_sites(fn_node, outer_params=frozenset()):
+    """`X[K + 1:]` (or `X[:K] ... X[K+1:]`) with K a parameter / closure variable that is never normalised (`K % len`,
+    `K + len(...)`, a `K < 0` / `K >= 0` test in the function): the slice is wrong for K == -1 (`X[0:]` is the whole X)"""
+    out = []
+    a = fn_node.args
+    params = {x.arg for x in a.posonlyargs + a.args + a.kwonlyargs} | set(outer_params)
+    assigned = {t.id for st in walk_no_nested(fn_node) if isinstance(st, (ast.Assign, ast.AugAssign))
+                for t in (st.targets if isinstance(st, ast.Assign) else [st.target]) if isinstance(t, ast.Name)}
+    sign_tested = set()
+    for n in walk_no_nested(fn_node):
+        if isinstance(n, ast.Compare) and len(n.ops) == 1 and isinstance(n.ops[0], (ast.Lt, ast.GtE, ast.Gt, ast.LtE)) and isinstance(n.left, ast.Name) \
+                and isinstance(n.comparators[0], ast.Constant) and n.comparators[0].value in (0, -1):
+            sign_tested.add(n.left.id)
+    for n in walk_no_nested(fn_node):
+        if isinstance(n, ast.Subscript) and isinstance(n.slice, ast.Slice) and isinstance(n.slice.lower, ast.BinOp) and isinstance(n.slice.lower.op, ast.Add):
+            lo = n.slice.lower
+            k = lo.left if isinstance(lo.left, ast.Name) else (lo.right if isinstance(lo.right, ast.Name) else None)
+            one = lo.right if k is lo.left else lo.left
+            if k is None or not (isinstance(one, ast.Constant) and one.value == 1):
+                continue
+            if k.id in params and k.id not in assigned and k.id not in sign_tested:
+                out.append((n, k.id))
+    return out
+
+
+def r9_positional_writeback(ctx):
+    """check_output / check_io accept negative positions (`obj_getter=-1`: the last element of the returned tuple).  A
+    write-back that rebuilds the tuple by slice arithmetic on the un-normalised position (`out[:g] + (v,) + out[g + 1:]`)
+    is wrong exactly for -1, where `out[0:]` re-appends the whole tuple: the caller gets a longer tuple that still holds
+    the unvalidated object."""
+    import ast as _ast
+    t = _ast.parse(R9_SELFTEST)
+    for nd in _ast.walk(t):
+        for c in _ast.iter_child_nodes(nd):
+            c._parent = nd  # type: ignore[attr-defined]
+    got = {fn.name: len(_slice_arith_sites(fn)) for fn in t.body}
+    if got != {"put_back_bad": 1, "put_back_guarded": 0}:
+        raise AnalysisError(f"C17.R9 self-test failed: {got}")
+    m = ctx.ix.module(DEC)
+    n = 0
+    for f in m.all_functions:
+        outer = set()
+        g = getattr(f, "parent", None)
+        while g is not None:
+            outer |= set(g.params)
+            g = getattr(g, "parent", None)
+        n += 1
+        for node, k in _slice_arith_sites(f.node, outer):
+            ctx.ob("R9", f, f"{f.short}: element `{k}` is written back at the position it was read from", False,
+                   f"`{txt(node)}` slices with the un-normalised position `{k}`: for {k} == -1 this is the whole sequence, so the validated "
+                   "object is inserted before a copy of the original tuple instead of replacing its last element", f.loc(node))
+    ctx.ob("R9", m.all_functions[0], "no slice arithmetic on an un-normalised obj_getter position", True, f"{n} functions of decorators.py analysed")
+
+
+def r10_accessor_marks_instance_only(ctx):
+    """check_types skips re-validation of an object whose `.pandera.schema` equals the annotation's schema.  That mark must
+    belong to the one object that was validated: the accessor keeps it on the accessor instance (`self._schema`).  Storing
+    it through the data object (`df.attrs[...]`, which pandas propagates to every derived frame) makes frames *computed
+    from* a validated input count as validated, and an invalid result leaves the decorated function unchecked."""
+    ix = ctx.ix
+    n = 0
+    for mp in ("pandera/accessors/pandas_accessor.py", "pandera/accessors/polars_accessor.py"):
+        m = ix.by_path.get(mp)
+        if m is None:
+            continue
+        for c in m.classes.values():
+            for name, lst in c.methods.items():
+                for f in lst:
+                    if f.name not in ("add_schema", "schema", "__init__"):
+                        continue
+                    n += 1
+                    bad = []
+                    for st in walk_no_nested(f.node):
+                        tgts = st.targets if isinstance(st, ast.Assign) else ([st.target] if isinstance(st, (ast.AugAssign, ast.AnnAssign)) else [])
+                        for t in tgts:
+                            root = t
+                            depth = 0
+                            while isinstance(root, (ast.Attribute, ast.Subscript)):
+                                root = root.value
+                                depth += 1
+                            if isinstance(root, ast.Name) and root.id == "self" and depth >= 2 and "_pandas_obj" in txt(t) or \
+                                    (isinstance(root, ast.Name) and root.id not in ("self",) and depth >= 1 and root.id in
+                                     {x.targets[0].id for x in walk_no_nested(f.node) if isinstance(x, ast.Assign) and isinstance(x.targets[0], ast.Name)
+                                      and "_pandas_obj" in txt(x.value)}):
+                                bad.append(st)
+                        if isinstance(st, ast.Expr) and isinstance(st.value, ast.Call) and isinstance(st.value.func, ast.Attribute) \
+                                and st.value.func.attr in ("update", "setdefault", "__setitem__") and "_pandas_obj" in txt(st.value.func.value):
+                            bad.append(st)
+                    if f.name == "schema":
+                        reads = [x for x in walk_no_nested(f.node) if isinstance(x, ast.Attribute) and x.attr in ("attrs", "_pandas_obj")]
+                        if reads:
+                            bad.append(reads[0])
+                    ctx.ob("R10", f, f"{c.name}.{f.name}: the validated-schema mark lives on the accessor instance only", not bad,
+                           "reads / writes self._schema only" if not bad else
+                           f"`{txt(bad[0])[:70]}` goes through the data object: metadata stored there is propagated by pandas to derived objects, "
+                           "so check_types treats the *result* of a computation on a validated input as already validated", f.loc(bad[0]) if bad else None)
+    ctx.stats["accessor_methods"] = n
+    if n < 2:
+        raise AnalysisError(f"accessor add_schema / schema methods: found {n}")
+
+
 def run(ctx):
+    r9_positional_writeback(ctx)
+    r10_accessor_marks_instance_only(ctx)
     from ..defassign import check_modules
     check_modules(ctx, "R8", ('pandera/decorators.py',), "escapes the decorated call instead of the SchemaError(s)")
     ix = ctx.ix
